@@ -234,6 +234,17 @@ def registry_kind(repo, cls):
         for a in m.nodes(ast.Assign):
             if any(isinstance(t, ast.Attribute) and t.attr == '_callbacks' for t in a.targets):
                 vals.append(m.expand(a.value))
+    # entries registered in another attribute than the modelled one (the registry split in two lists, ...): not the modelled data structure either
+    con = repo.lookup_method(cls, 'connect')
+    if con is not None:
+        attrs = set()
+        for c in con.calls():
+            if isinstance(c.func, ast.Attribute) and c.func.attr in ('append', 'insert', 'extend', 'add'):
+                recv = con.expand(c.func.value)
+                attrs |= {n.attr for n in ast.walk(recv) if isinstance(n, ast.Attribute) and isinstance(n.value, ast.Name) and n.value.id == con.params[0]}
+        extra = sorted(a_ for a_ in attrs if a_ != '_callbacks' and a_.startswith('_'))
+        if extra:
+            return 'entries are also registered in %s' % ', '.join('self.' + a_ for a_ in extra)
     if not vals:
         return None
     other = [v for v in vals if isinstance(v, (ast.Dict, ast.Set, ast.DictComp, ast.SetComp)) or
